@@ -6,7 +6,6 @@ import (
 	"fmt"
 	"strings"
 
-	netty "github.com/go-netty/go-netty"
 	"github.com/go-netty/go-netty/zz_verif/explore"
 	"github.com/go-netty/go-netty/zz_verif/vsched"
 )
@@ -27,7 +26,8 @@ type WObs struct {
 	Ws  []*Writer
 	// Idle0 is the value of the private sender-ownership flag right after the channel was
 	// created (nobody sending): the representation-independent meaning of "at rest".
-	Idle0 int32
+	Idle0  int32
+	PrivOK bool // the private channel layout was recognised
 }
 
 func (p WParams) name() string {
@@ -62,7 +62,7 @@ func WriteScenario(p WParams, check func(x *vsched.Exec, o *WObs) []explore.Find
 		Body: func(v any) {
 			o := v.(*WObs)
 			o.Env = NewEnv(p.Cfg, nil)
-			o.Idle0, _, _, _ = netty.VerifChannelState(o.Env.Ch)
+			o.Idle0, _, _, o.PrivOK = ChanState(o.Env.Ch)
 			id := 1
 			for i, eps := range p.Writers {
 				w := &Writer{Name: fmt.Sprintf("w%d", i+1)}
@@ -197,7 +197,10 @@ func CheckQuiescent(x *vsched.Exec, o *WObs) []explore.Finding {
 	if t.Unflushed > 0 {
 		fs = append(fs, explore.Finding{Key: "unflushed", Msg: "written payloads were left unflushed at quiescence;" + ctxs})
 	}
-	running, _, qlen, _ := netty.VerifChannelState(o.Env.Ch)
+	running, qlen, _, ok := ChanState(o.Env.Ch)
+	if !ok || !o.PrivOK {
+		return fs // private state unavailable: the behavioural clauses above still decide
+	}
 	if qlen != 0 {
 		fs = append(fs, explore.Finding{Key: "queue-not-empty", Msg: fmt.Sprintf("%d packets parked in the write queue at quiescence;%s", qlen, ctxs)})
 	}
